@@ -29,7 +29,7 @@ def nontrivial(case, reply):
 
 MANIFEST = {
     "text": "Proof: an invocation f(a1..an) evaluates to f's body in a frame binding exactly p_i to the call-site value of a_i "
-            "(for as many parameters as there are arguments), and evaluating in a frame is evaluating the body with every bound "
+            "(a successful binding binds every parameter; fewer arguments than parameters is the error naming the first parameter without argument: C11_missing_argument, after fix 841db2a), and evaluating in a frame is evaluating the body with every bound "
             "$p replaced by its value in an EMPTY frame — so enclosing frames, equal parameter names in other macros and nesting "
             "depth cannot interfere (exact equality of results, all depths, all definition sets); more fuel never changes a result. TEXT "
             "(C11_text): `%def name(params)` / body / `%end` with any blanks and line ends parses to the definition node with exactly the "
